@@ -17,6 +17,22 @@ CHECKS = {
             "against the property (Pass A) and the model (Pass B). Exhaustive over the stated range.",
             "TLC/Apalache/Z3 soundness; use of the threshold by certificate code is checked under C02/C08/C09.",
             "DESIGN.md section 6, C20"),
+    "C01": ("model_checking",
+            "TLC evaluates the property formulas of spec/Trace_P.tla on every step of recorded executions of real replicas under an adversarial scheduler (trace validation, Pass A)",
+            "Agreement and chain shape are evaluated by TLC at every step of recorded executions of clusters of real replicas (n=4,7; three rulesets; Byzantine replicas scripted by an adversary that equivocates, forks, forges and replays); the abstract protocol model HotStuffAbs is exhausted by TLC for the same invariants.",
+            "Byzantine keys count as having signed everything; one scheduler step = one delivery run to quiescence.", "DESIGN.md section 6, C01"),
+    "C03": ("model_checking",
+            "TLC evaluates the property formulas of spec/Trace_P.tla on every step of recorded executions of real replicas under an adversarial scheduler (trace validation, Pass A)",
+            "Every call of a replica's signing primitive is recorded (ground truth); TLC checks at each vote that the block was proposed to the voter by the leader of its view, carries a QC backed by a quorum of real votes, directly extends the certified block, and that views voted/timed-out are strictly exceeded.",
+            "Byzantine keys count as having signed everything; one scheduler step = one delivery run to quiescence.", "DESIGN.md section 6, C03"),
+    "C06": ("model_checking",
+            "TLC evaluates the property formulas of spec/Trace_P.tla on every step of recorded executions of real replicas under an adversarial scheduler (trace validation, Pass A)",
+            "Real ClientIO and CommandCache run in every replica with a waiting client registered for every command; TLC checks execute-event order against the committed chain, the exactly-once count, digest equality at equal counts across replicas, prefix-related executed sequences and at-most-one / success-implies-executed outcomes.",
+            "Byzantine keys count as having signed everything; one scheduler step = one delivery run to quiescence.", "DESIGN.md section 6, C06"),
+    "C07": ("model_checking",
+            "TLC evaluates the property formulas of spec/Trace_P.tla on every step of recorded executions of real replicas under an adversarial scheduler (trace validation, Pass A)",
+            "TLC checks on every step of the recorded executions that view, high QC, high TC and committed view never decrease, that every view increment is signalled one view at a time, and that each increment is backed by a quorum of real vote signatures for a block of a view >= the old view or real timeout signatures for such a view (ground truth from the signing log).",
+            "Byzantine keys count as having signed everything; one scheduler step = one delivery run to quiescence.", "DESIGN.md section 6, C07"),
     "C02": ("model_checking",
             "TLA+ Cert module (abstract signatures = who really signed what; Verify*/BatchVerify* as coded, Sound* = the property) model-checked by TLC; TLC line-check of verdicts of the real cert.Authority on crafted certificates",
             "TLC checks on the model that acceptance implies soundness over all small signature lists (negative control: the pre-fix counting rule is refuted). "
